@@ -44,7 +44,7 @@ def cases(tier, seed):
         k += 1
         schemes = b["schemes"] if tier == "thorough" else [b["schemes"][k % 3]]
         for sch in schemes:
-            out.append(dict(scheme=sch, release=rel, death=death, numrec=numrec, nsteps=n, period=P, pvars=bool(k % 2)))
+            out.append(dict(scheme=sch, release=rel, death=death, numrec=numrec, nsteps=n, period=P, pvars=bool((k // 2 + k // 7) % 2)))
     return out
 
 
